@@ -45,6 +45,17 @@ func Replay(vals []uint64) *Tape {
 // Values returns the values consumed so far (generation mode: all generated).
 func (t *Tape) Values() []uint64 { return append([]uint64(nil), t.vals[:t.pos]...) }
 
+// Reserve makes room for n more entries, so that recording them does not
+// reallocate (the C16 scheduler draws from goroutines under the race
+// detector, where growing a slice would be reported).
+func (t *Tape) Reserve(n int) {
+	if cap(t.vals)-len(t.vals) < n {
+		nv := make([]uint64, len(t.vals), len(t.vals)+n)
+		copy(nv, t.vals)
+		t.vals = nv
+	}
+}
+
 // Used returns the number of entries consumed.
 func (t *Tape) Used() int { return t.pos }
 
@@ -63,7 +74,12 @@ func (t *Tape) Raw() uint64 {
 	}
 	t.state += 0x9e3779b97f4a7c15
 	v := Mix(t.state)
-	t.vals = append(t.vals, v)
+	if len(t.vals) < cap(t.vals) {
+		t.vals = t.vals[:len(t.vals)+1]
+		t.vals[len(t.vals)-1] = v
+	} else {
+		t.vals = append(t.vals, v)
+	}
 	t.pos++
 	return v
 }
